@@ -843,23 +843,44 @@ def resolvedOwner (s : State) (k : Nat) : Option Nat :=
   | some (some t) => some t
   | _ => none
 
+/-- Threads that currently hold a RE-CLAIMED key (`Thread(u)` with `claimed_twice`) on the `transferred`
+    chain above `k`.  While such a key is re-claimed, `transfer_lock` of a key below it resolves the new
+    owner to the re-claiming thread `u` (`mark_as_transfer_target` answers `Thread(u)`), so dependents of
+    the keys below it legitimately point at `u` until the key is handed back (by `release_self`, which
+    must wake them, or by `transfer`, which re-points them). -/
+def reclaimersAlong (s : State) : Nat → Nat → List Nat
+  | 0, _ => []
+  | fuel + 1, k =>
+    match s.transferred k with
+    | none => []
+    | some (_, o) =>
+      (match s.sync o with
+       | some st =>
+         (match st.owner with
+          | .thread u => if st.claimedTwice then [u] else []
+          | .transferred => [])
+       | none => []) ++ reclaimersAlong s fuel o
+
 /-- W3 with resolved owners: every dependent of `k` points at the thread that owns `k` —
     `Thread(u)` ⇒ `u` (while a transferred key is re-claimed, `claimed_twice`, older dependents may
     still point at the resolved owner of its `transferred` chain); `Transferred` ⇒ the resolved owner
-    (and the key must still have its `transferred` entry); no sync entry ⇒ no dependents.
+    (and the key must still have its `transferred` entry), or the thread that currently holds a
+    re-claimed key further up the chain (`reclaimersAlong`; allowed for re-claimed keys, too); no sync
+    entry ⇒ no dependents.
     Keys in `skip` are exempt (the trace driver passes the keys whose release / transfer is in flight
     between its sync-table line and its graph line). -/
 def checkW3 (s : State) (skip : List Nat) : Bool :=
   (ids s).all fun k =>
     skip.contains k || (s.qdeps k).all fun t =>
+      let viaChain := (s.transferred k).isSome &&
+        (s.edges t == resolvedOwner s k ||
+          (reclaimersAlong s (s.bound + 1) k).any fun u => s.edges t == some u)
       match s.sync k with
       | none => false
       | some st =>
         match st.owner with
-        | .thread u =>
-          s.edges t == some u ||
-            (st.claimedTwice && (s.transferred k).isSome && s.edges t == resolvedOwner s k)
-        | .transferred => (s.transferred k).isSome && s.edges t == resolvedOwner s k
+        | .thread u => s.edges t == some u || (st.claimedTwice && viaChain)
+        | .transferred => viaChain
 
 /-- W6 (state part): a key without sync entry has no dependents. -/
 def checkW6 (s : State) : Bool :=
